@@ -7,6 +7,7 @@
    Model (model/RenderModel.v): render c v = what printAll paints on an erased window, in window rows;
    run c t us = the incremental-redraw machine (prevLines) over a history of field updates + render requests. *)
 From Fzf Require Import Prelude RenderSpec RenderModel RenderProofs RenderDynModel RenderDynProofs.
+From Fzf Require Import RenderGhostSpec RenderGhostModel RenderGhostProofs.
 Open Scope nat_scope.
 
 (* ★ rows_faithful: for every configuration that fits the window, every state and every list slot i of the window,
@@ -213,4 +214,56 @@ Proof.
   split; [left; reflexivity|]. split; [vm_compute; lia|]. split; [exact I|].
   split; [repeat constructor|]. split; [right; right; vm_compute; auto|]. split; [left; reflexivity|].
   split; [right; right; vm_compute; reflexivity|]. split; [vm_compute; lia|]. split; [exact I|exact I].
+Qed.
+
+(* ---------- the input area of the prompt row: ghost text (--ghost / change-ghost / transform-ghost) ----------
+   Vocabulary (spec/RenderGhostSpec.v): ghost_on g q = there is a ghost text and the query is empty;
+   prompt_row_text_g c g v = the prompt row: prompt ++ (the query, or the ghost text while the query is empty),
+   then the inline / inline-right counter.  Model (model/RenderGhostModel.v): render_g c g cx v = printAll with
+   t.ghost = g and the cursor at position cx of the query (printPrompt splits the query there and looks at the two
+   halves; printInfoImpl's shiftLen). *)
+
+(* ★ render_g_faithful: for every ghost text, EVERY cursor position, every configuration that fits the window and
+   every state whose prompt + input area fit the prompt row, the full render is a faithful screen: the prompt row shows
+   the prompt and the current query - the ghost text only in the place of an empty query - and everything else is as
+   in render_faithful. *)
+Theorem render_g_faithful : forall c g cx v, cfg_ok c -> view_ok_g c g v -> view_wf v ->
+  faithful_g c g v (render_g c g cx v).
+Proof. exact render_g_faithful_proof. Qed.
+Print Assumptions render_g_faithful.
+
+(* ★ query_on_prompt_row: "the prompt line shows the current query" - wherever the cursor is and whatever the ghost
+   text, the prompt row begins with prompt ++ query as soon as the query is not empty *)
+Theorem query_on_prompt_row : forall c g cx v, cfg_ok c -> view_ok_g c g v -> view_wf v -> v_query v <> [] ->
+  firstn (length (v_prompt v ++ v_query v)) (row_at (render_g c g cx v) (prompt_row c)) = v_prompt v ++ v_query v.
+Proof. exact query_on_prompt_row_proof. Qed.
+Print Assumptions query_on_prompt_row.
+
+(* the ghost text stands there while the query is empty *)
+Theorem ghost_on_prompt_row : forall c g cx v, cfg_ok c -> view_ok_g c g v -> view_wf v -> v_query v = [] ->
+  firstn (length (v_prompt v ++ g)) (row_at (render_g c g cx v) (prompt_row c)) = v_prompt v ++ g.
+Proof. exact ghost_on_prompt_row_proof. Qed.
+Print Assumptions ghost_on_prompt_row.
+
+(* without a ghost text in effect the render is RenderModel.render (so every theorem above applies to it) *)
+Theorem ghost_off_render : forall c g cx v, ghost_on g (v_query v) = false -> render_g c g cx v = render c v.
+Proof. exact ghost_off_render_proof. Qed.
+Print Assumptions ghost_off_render.
+
+(* non-vacuity: 24x5, reverse layout, inline counter, ghost text "find"; query "b2" with the cursor at its
+   beginning: the hypotheses hold and the prompt row reads "> b2  < 1/2"; with an empty query it reads "> find < 2/2" *)
+Example c15_ghost_nonvacuous :
+  let c := mkCfg 24 5 LReverse IInline false [] [] 0%Z 8 in
+  let g := [102;105;110;100]%Z in
+  let ms := [(0, [97;49]%Z); (1, [98;50]%Z)] in
+  let v := mkView [GT; SP] [98;50]%Z [(1, [98;50]%Z)] 2 0 0 [] in
+  let v0 := mkView [GT; SP] [] ms 2 0 0 [] in
+  cfg_ok c /\ view_ok_g c g v /\ view_ok_g c g v0 /\ view_wf v /\ view_wf v0 /\
+  row_at (render_g c g 0 v) (prompt_row c) = pad 24 [62;32;98;50;32;32;60;32;49;47;50]%Z /\
+  row_at (render_g c g 0 v0) (prompt_row c) = pad 24 [62;32;102;105;110;100;32;60;32;50;47;50]%Z.
+Proof.
+  cbn zeta. split; [vm_compute; lia|]. split; [vm_compute; lia|]. split; [vm_compute; lia|].
+  split; [exists (fun _ => [98;50]%Z); repeat constructor|].
+  split; [exists (fun i => if Nat.eqb i 0 then [97;49]%Z else [98;50]%Z); repeat constructor|].
+  split; vm_compute; reflexivity.
 Qed.
